@@ -103,7 +103,7 @@ class Unit(as2a.Unit):
         sh.dropped += ['ArgListIterator: std::iterator base clause', 'ArgListIterator::operator-> / operator* (trivial accessors)', 'stream operators of ArgListElement', 'argument_error (throw sites cut the path)']
         # ---- program-name copies: slice the statements from the declaration of `copy` to the strcpy
         src = open(os.path.join(core.SRC, 'library/prog_args/handler.cpp')).read()
-        self.slices = re.findall(r'\n([^\n]*\bcopy\b[^\n;]*;\n(?:[ \t]*\n)*[ \t]*::strcpy\( copy(?:\.get\(\))?, arg0\);)', src)
+        self.slices = re.findall(r'\n([^\n]*\bcopy\b[^\n;]*;\n(?:[ \t]*\n)*[ \t]*::strn?cpy\( copy(?:\.get\(\))?, arg0(?:,[^;\n]*)?\);)', src)
         text = ['// generated: statements sliced out of Handler::readEvalFileArguments / checkReadEnvVarArgs (program-name copy)',
                 '#include <cstdint>', '#include <cstring>', '#include <climits>', '#include <memory>']
         for k, sl in enumerate(self.slices):
@@ -282,9 +282,16 @@ extern "C" { size_t cv_arg0_len; const char* cv_arg0; }
 extern "C" size_t strlen(const char* s) { __CPROVER_assert(s == cv_arg0, "harness: strlen only of the program name"); return cv_arg0_len; }
 extern "C" char* strcpy(char* d, const char* s) { __CPROVER_assert(s == cv_arg0, "harness: strcpy only from the program name");
   __CPROVER_assert(d != 0 && __CPROVER_OBJECT_SIZE(d) - __CPROVER_POINTER_OFFSET(d) >= cv_arg0_len + 1, "strcpy: destination has room for strlen(program name) + 1 bytes"); return d; }
-static void cv_use(const std::unique_ptr< char[]>& p) { }
-static void cv_use(const std::unique_ptr< char>& p) { }
-static void cv_use(char* p) { }
+// strncpy( d, s, n) writes exactly n bytes; the result is a C string only if strlen( s) < n
+extern "C" { bool cv_copy_terminated = true; }
+extern "C" char* strncpy(char* d, const char* s, size_t n) { __CPROVER_assert(s == cv_arg0, "harness: strncpy only from the program name");
+  __CPROVER_assert(d != 0 && __CPROVER_OBJECT_SIZE(d) - __CPROVER_POINTER_OFFSET(d) >= n, "strncpy: destination has room for the n bytes written");
+  cv_copy_terminated = (cv_arg0_len < n); return d; }
+// what follows a copy (basename(), std::string assignment, strlen) reads it up to the terminator
+#define CV_USED __CPROVER_assert(cv_copy_terminated, "the copy of the program name is a terminated C string where it is used")
+static void cv_use(const std::unique_ptr< char[]>& p) { CV_USED; }
+static void cv_use(const std::unique_ptr< char>& p) { CV_USED; }
+static void cv_use(char* p) { CV_USED; }
 #include "gen/name_copies.inc"
 #define CANARY __CPROVER_assert(0, "CV_CANARY")
 extern "C" void h_names() {
@@ -406,6 +413,7 @@ HARNESS_BLOCKS_CPP = r'''// generated: environment of the program-name blocks of
 #include <cstdint>
 #include <cstddef>
 #include <cstring>
+#include <climits>
 #include <string>
 using std::string;
 extern "C" { char cv_basename_static[2] = { '.', 0 };       // POSIX basename() may return a pointer to static storage
@@ -505,8 +513,8 @@ def make_build_it(unit, argc, wlen, steps):
 
 def make_build_names(unit):
     def build(job, wd):
-        if not unit.slices:
-            raise Undecided('no raw program-name copy found in handler.cpp (slice rule matched nothing)')
+        if len(unit.slices) != 2:
+            raise Undecided('slice rule: %d raw program-name copies recognised in handler.cpp, 2 expected (readEvalFileArguments, checkReadEnvVarArgs)' % len(unit.slices))
         calls = ' '.join('cv_name_copy_%d( a);' % k for k in range(len(unit.slices)))
         core.goto_cc(['-nostdinc', '-I', core.STUBS, '-I', unit.scratch.dir, '-include', 'memory', '-DCV_CALLS=' + calls,
                       unit.hn, '--function', 'h_names', '-o', 'h.gb'], wd, 'program-name copy slices')
@@ -584,13 +592,14 @@ def replay_block(job, inputs, scratch):
         if rc != 0:
             return {'outcome': 'unavailable', 'detail': 'replay link failed: ' + e[-600:]}
     n = inputs.get('n') if isinstance(inputs.get('n'), int) else 0
-    n = max(0, min(n, 64))
+    n = max(0, min(n, 64 if 'name_block' in job.name else 5000))
     mode = '0' if job.name.endswith('_0') else '1'
+    modes = [mode] if 'name_block' in job.name else ['0', '1']
     shapes = [''] if n == 0 else ['x' * n, '/' * n, 'x' * (n - 1) + '/', ('./' + 'x' * n)[:n], ('x/' * n)[:n], '.' * n]
     # boundary names as well
     shapes += [x for x in ('', '/', '.', '//') if x not in shapes]
     last = None
-    for nm in shapes:
+    for nm, mode in [(x, m) for x in shapes for m in modes]:
         args = [exe, mode, 'name=' + ''.join('%02x' % ord(c) for c in nm)]
         rc, out, e, s = core.run(args, timeout=60, limit=False, env={'ASAN_OPTIONS': 'detect_leaks=0'})
         last = {'outcome': 'reproduced' if rc != 0 else 'not-reproduced', 'cmd': 'replay/c04_names.cpp: ' + ' '.join(args[1:]), 'args': {'argv': args[1:]},
@@ -635,7 +644,7 @@ def replay_assign(job, inputs, scratch):
 def replay(unit, job, o, inputs, scratch):
     if 'assign' in job.name:
         return replay_assign(job, inputs, scratch)
-    if 'name_block' in job.name:
+    if 'name_block' in job.name or job.name == 'c04_name_copies':
         return replay_block(job, inputs, scratch)
     if 'file_line' in job.name:
         objs, flags, err = _lib_objects(scratch)
